@@ -2,8 +2,8 @@
 package main
 
 import (
-	"math"
 	"fmt"
+	"math"
 	"os"
 	"sort"
 	"strings"
@@ -28,10 +28,14 @@ const (
 	opStep = 6
 	opFlsh = 9
 )
+
 var steps = []time.Duration{E / 2, E, E + 1}
 var types = []string{"c", "g", "s", "t"}
 
 type cfg struct{ Exp [4]time.Duration } // expiry per type c,g,s,t
+
+// histTimer: the configurations whose counter expiry is the positive interval run their timer with a gsd_histogram tag
+func histTimer(c cfg) bool { return c.Exp[0] > 0 }
 
 // serverFor builds the statsd.Server for an expiry configuration exactly as the gostatsd command does: from a
 // command line, through setupConfiguration and constructServer (this harness is compiled into cmd/gostatsd).
@@ -74,14 +78,14 @@ type rser struct {
 	present bool
 	last    time.Duration // time of last datapoint
 	pending int           // datapoints since last flush
-	gauge   []float64 // values of the datapoints carrying the newest timestamp (any of them may be kept, C07)
+	gauge   []float64     // values of the datapoints carrying the newest timestamp (any of them may be kept, C07)
 }
 
 type world struct {
-	ag   *statsd.MetricAggregator
-	now  time.Duration
-	ref  [4]rser
-	nval float64
+	ag      *statsd.MetricAggregator
+	now     time.Duration
+	ref     [4]rser
+	nval    float64
 	members map[float64]bool // set members received since the last flush
 }
 
@@ -109,7 +113,11 @@ func (w *world) apply(c cfg, op int) string {
 		}
 		mm := gostatsd.NewMetricMap(false)
 		ty := []gostatsd.MetricType{gostatsd.COUNTER, gostatsd.GAUGE, gostatsd.SET, gostatsd.TIMER}[op]
-		mm.Receive(&gostatsd.Metric{Name: "x", Type: ty, Value: w.nval, StringValue: fmt.Sprint("m", w.nval), Rate: 1, Timestamp: w.ts()})
+		var tags gostatsd.Tags
+		if ty == gostatsd.TIMER && histTimer(c) {
+			tags = gostatsd.Tags{"gsd_histogram:1_5"} // (in a quarter of the configurations the timer is a histogram timer)
+		}
+		mm.Receive(&gostatsd.Metric{Name: "x", Type: ty, Value: w.nval, StringValue: fmt.Sprint("m", w.nval), Rate: 1, Tags: tags, Timestamp: w.ts()})
 		w.ag.ReceiveMap(mm)
 		r := &w.ref[op]
 		if ty == gostatsd.SET {
@@ -186,6 +194,25 @@ func (w *world) apply(c cfg, op int) string {
 				}
 			case "t":
 				t := timers[0]
+				if histTimer(c) {
+					// a histogram timer reports bucket counts only: none in an idle interval, all values under +Inf otherwise
+					total := 0
+					for th, n := range t.Histogram {
+						if idle && n != 0 {
+							return fmt.Sprintf("idle histogram timer reported with %d values in bucket %v (values %v)", n, th, t.Values)
+						}
+						if math.IsInf(float64(th), 1) {
+							total = n
+						}
+					}
+					if idle && len(t.Values) != 0 {
+						return fmt.Sprintf("idle histogram timer reported with values %v", t.Values)
+					}
+					if !idle && len(t.Histogram) > 0 && total != r.pending {
+						return fmt.Sprintf("histogram timer reports %d values, received %d", total, r.pending)
+					}
+					break
+				}
 				if idle && (t.Count != 0 || len(t.Percentiles) != 0 || len(t.Values) != 0 || t.PerSecond != 0) {
 					return fmt.Sprintf("idle timer reported with count %d percentiles %v values %v", t.Count, t.Percentiles, t.Values)
 				}
